@@ -14,6 +14,10 @@ MODELS = {
                    names={}, inputs=['Sheet1!A1', 'Data!A1']),
     'zeros': dict(cells={'A1': 7, 'A2': 0, 'A3': False, 'A4': 3.5, 'B1': '=AVERAGE(A1:A4)', 'B2': '=COUNT(A1:A4)&"/"&COUNTA(A1:A4)', 'C1': '=MIN(A1:A4)+B1'},
                   names={}, inputs=['A1']),
+    # defined names written in the formulas in ANOTHER letter case than in their definition: whatever the library makes of such a name, the
+    # extracted model must make the same of it
+    'namecase': dict(cells={'A1': 0.5, 'A2': 100, 'A3': 900, 'B1': '=A2*rate', 'B2': '=SUM(AMOUNTS)', 'C1': '=B1+B2', 'D1': '=A2*Rate+SUM(Amounts)'},
+                     names={'Rate': 'Sheet1!$A$1', 'Amounts': 'Sheet1!$A$2:$A$3'}, inputs=['A1', 'A2']),
     'deep': dict(cells={'A1': 1, 'A2': '=A1+1', 'A3': '=A2+1', 'A4': '=A3+1', 'A5': '=A4+A2', 'B1': '=SUM(A1:A5)'}, names={}, inputs=['A1']),
 }
 
@@ -144,7 +148,7 @@ def oracle(c):
 
 DRIVERS = [
     Driver('C13/B4.extract', cases, oracle, nchunks=8,
-           rule='5 acyclic models (chain, ranges, defined names for a cell / a range / an output, two sheets with a $ reference, dependency depth 4) x every non-empty focus subset of their cells and names (quick: all subsets up to 2 elements + 40 larger ones per model) x {no change, every input changed in both models by address, ... through its defined name}: closure, equal values of every focused item, original unchanged',
+           rule='7 acyclic models (chain, ranges, defined names for a cell / a range / an output, names written in another letter case, two sheets with a $ reference, zeros and FALSE in a range, dependency depth 4) x every non-empty focus subset of their cells and names (quick: all subsets up to 2 elements + 40 larger ones per model) x {no change, every input changed in both models by address, ... through its defined name}: closure, equal values of every focused item, original unchanged',
            bound='models of <= 6 cells'),
 ]
 
